@@ -234,6 +234,19 @@ CHECKS = {
         "reference; invalid tracks must raise a Rally error.",
         "Trusted: the reference expect(model) (90 lines). Index/template bodies and track plugins are not generated.",
     ),
+    "C13": (
+        "exploration",
+        "bounded-exhaustive generation of team directories, car lists and car parameters through the real team.load_car, the real "
+        "BareProvisioner/ElasticsearchInstaller on a stub distribution archive and the real cleanup, against a dict-merge reference and a "
+        "regex template renderer",
+        "DESIGN.md §4 C13",
+        "3 config-base variable variants x every ordered selection of 1..3 of 5 cars/mixins (85 lists) x every subset of 4 car parameters "
+        "x data-path modes x preserve: config bases in order without duplicates, variables = config-base < car (list order) < car parameters, "
+        "Rally's node variables not overridable in rendered files, every template file rendered to the same relative path (appended across "
+        "bases, binary copied verbatim, pre-bundled config removed), cleanup removes the installation and exactly its data paths unless "
+        "preserve (then nothing); compositions without a config base and unknown cars are rejected.",
+        "Trusted: the reference merge (20 lines) and renderer (10 lines). Plugins and bootstrap hooks are not generated.",
+    ),
 }
 
 NOT_YET = {}
